@@ -116,7 +116,7 @@ func c02Child(args []string) int {
 	arrays := os.Getenv("VERIF_C02_PRESSURE") != "" && mode == "insert"
 	if arrays {
 		// memory cap so small that every applied entry forces a (sorted) flush first; values arrive as arrays
-		// of four equal parts (exact in binary), so that a partly applied point is visible in the sum
+		// of two parts, so that a partly applied point is visible in the sum
 		opts.MaxMemoryRatio = 1e-12
 	}
 	db, err := dbh.Open(dir, defs, opts)
@@ -136,7 +136,17 @@ func c02Child(args []string) int {
 		value := func(i int) map[string]interface{} {
 			v := math.Pow(3, float64(i%30))
 			if arrays {
-				return map[string]interface{}{"v": []float64{v / 4, v / 4, v / 4, v / 4}}
+				// the pinned tree inserts every array element after the first twice (known finding under C01), so
+				// [x, y] contributes x + 2y: chosen so that the point still contributes exactly 3^j, while a point
+				// applied only in part leaves 3^(j-1) (or a fraction) behind and is caught by the decode
+				switch {
+				case i%30 == 0:
+					return map[string]interface{}{"v": []float64{0.5, 0.25}}
+				case i%30 == 1:
+					return map[string]interface{}{"v": []float64{v / 3, v / 3}}
+				}
+				e := v / 9 // five equal elements: e + 2*4e = 9e = 3^j
+				return map[string]interface{}{"v": []float64{e, e, e, e, e}}
 			}
 			return map[string]interface{}{"v": v}
 		}
@@ -333,7 +343,7 @@ func runC02(c *fw.Ctx) {
 	case 5:
 		variant = "memory-pressure-arrays"
 		timerEnv = append(timerEnv, "VERIF_C02_PRESSURE=1")
-		perRound = 60
+		perRound = 100
 	}
 	c.Obs("variant:"+variant, 1)
 
